@@ -1,7 +1,7 @@
 import PolyVerif.Model.LineText
 /-
-Model of poly/io/gff (property C14), statement by statement, as the code is after commit
-988c96c (`strings.HasPrefix(line, "##")`):
+Model of poly/io/gff (property C14), statement by statement, as the code is after commits
+988c96c and fdf6b17 (`strings.HasPrefix(line, "#")`: directives and comments are skipped):
 
   gff.Parse   ↦ `parse`        gff.Build ↦ `build`
   poly.Feature.GetSequence on a feature without sub-locations and without the complement
@@ -46,6 +46,7 @@ structure Gff where
   deriving Repr, DecidableEq
 
 def sFasta : Str := ['#', '#', 'F', 'A', 'S', 'T', 'A']
+def sHash1 : Str := ['#']
 def sHash2 : Str := ['#', '#']
 def sClose : Str := ['#', '#', '#']
 def sGffVersion : Str := "##gff-version".toList
@@ -98,7 +99,7 @@ structure PState where
 def step (st : PState) (line : Str) : Outcome PState :=
   if line = sFasta then .ok { st with fasta := true }
   else if line.length = 0 then .ok st
-  else if hasPrefix sHash2 line then .ok st
+  else if hasPrefix sHash1 line then .ok st
   else if st.fasta && line.take 1 != ['>'] then .ok { st with buf := st.buf ++ line }
   else if st.fasta && line.take 1 == ['>'] then .ok { st with desc := line }
   else (parseFeature line).bind fun record => .ok { st with feats := st.feats ++ [record] }
